@@ -239,11 +239,12 @@ func (f *Frame) scanCallee(fi *FuncInfo, n *ast.CallExpr, t *Targets, seen map[*
 		}
 	case KPure:
 	case KModel:
-		if depth < 6 && !seen[fi.Model] {
-			seen[fi.Model] = true
-			sub := &Frame{vc: f.vc, pk: fi.MPkg, tsub: f.tsub}
+		md, mp := fi.modelFor(f.pk)
+		if depth < 6 && !seen[md] {
+			seen[md] = true
+			sub := &Frame{vc: f.vc, pk: mp, tsub: f.tsub}
 			st := newTargets()
-			sub.scanNode(fi.Model.Body, st, seen, depth+1)
+			sub.scanNode(md.Body, st, seen, depth+1)
 			t.absorbCallee(st)
 		}
 	case KInline, KSpec:
